@@ -176,6 +176,11 @@ func runCheck(o checkOpts) int {
 		sel = append(sel, sp)
 		pkgSet[sp.Pkg] = true
 	}
+	for _, ft := range db.Transitions {
+		if ft.Clause.Label == o.prop {
+			pkgSet[ft.Pkg] = true
+		}
+	}
 	var lemmas []*Lemma
 	for _, lm := range db.Lemmas {
 		if lm.Props[o.prop] && (o.only == "" || strings.Contains(lm.Name, o.only)) {
@@ -205,6 +210,7 @@ func runCheck(o checkOpts) int {
 		e := engs[km]
 		if e == nil {
 			e = newEng(l, db, km)
+			e.curProp = o.prop
 			engs[km] = e
 		}
 		fn := e.funcIndex[sp.Name]
@@ -218,6 +224,44 @@ func runCheck(o checkOpts) int {
 		}
 		runs = append(runs, r)
 		all = append(all, r.obls...)
+	}
+	// field-transition invariants tagged with this property: every function of the package that stores to the
+	// field is checked, annotated or not
+	done := map[string]bool{}
+	for _, r := range runs {
+		done[r.spec.Name] = true
+	}
+	for _, ft := range db.Transitions {
+		if ft.Clause.Label != o.prop {
+			continue
+		}
+		// unannotated writers are checked in the byte-string mode used by the package's contracts
+		km := false
+		for _, fsp := range db.Funcs {
+			if fsp.Pkg == ft.Pkg && fsp.KeyMode != nil && *fsp.KeyMode {
+				km = true
+			}
+		}
+		e := engs[km]
+		if e == nil {
+			e = newEng(l, db, km)
+			e.curProp = o.prop
+			engs[km] = e
+		}
+		for _, fn := range e.transitionWriters(ft) {
+			if done[fn.String()] || (o.only != "" && !strings.Contains(fn.String(), o.only)) {
+				continue
+			}
+			done[fn.String()] = true
+			sp := db.Funcs[fn.String()]
+			if sp == nil {
+				sp = &FuncSpec{Name: fn.String(), Pkg: ft.Pkg, Loops: map[int]*LoopSpec{}, InlineSet: map[string]bool{}, Opaque: map[string]bool{}, Props: map[string]bool{}, MayPanic: true, KeyMode: &km}
+			}
+			if r := safeVerify(e, fn, sp, &genErrors, known); r != nil {
+				runs = append(runs, r)
+				all = append(all, r.obls...)
+			}
+		}
 	}
 	for _, lm := range lemmas {
 		e := engs[false]
